@@ -270,7 +270,7 @@ PROPS["C12"] = {
 
 PROPS["C13"] = {
     "level": "exploration",
-    "level_text": "bounded restatement (a finite run cannot observe 'unbounded'): for 25 repeated patterns over K cycles (request/response cycles through both APIs, both bridges and the typed core, a one-shot answered with garbage, timers set/fire, set/clear/fire, fire/late-clear, renders, subscribe/one item/consumer ends over bridge and core, sibling tasks with one request dropped and the other resolved before the core runs again, a long-lived command extended from outside, timers started and cleared in one update, request futures that are created and never polled through the command API, the capability API and a capability future inside a command task) the occupancy of the bridge registry (by kind), the core's executor, the command's task slab and the cleared-timer set - read through the crux_verif hooks with nothing outstanding at cycles 1, K/2 and K - did not grow, except for the listed known findings; and the number of live heap allocations (counting global allocator, independent of the hooks) did not grow between K/2 and K in any pattern without a listed finding. Held values of finished / cancelled / aborted-before-first-poll tasks are covered by the drop-counter ledger of the cmdlab checks (C04/C06/C07, signature held-value/not-released).",
+    "level_text": "bounded restatement (a finite run cannot observe 'unbounded'): for 26 repeated patterns over K cycles (request/response cycles through both APIs, both bridges and the typed core, a one-shot answered with garbage, timers set/fire, set/clear/fire, fire/late-clear, renders, subscribe/one item/consumer ends over bridge and core, sibling tasks with one request dropped and the other resolved before the core runs again, a long-lived command extended from outside, timers started and cleared in one update, request futures that are created and never polled through the command API, the capability API and a capability future inside a command task) the occupancy of the bridge registry (by kind), the core's executor, the command's task slab and the cleared-timer set - read through the crux_verif hooks with nothing outstanding at cycles 1, K/2 and K - did not grow, except for the listed known findings; and the number of live heap allocations (counting global allocator, independent of the hooks) did not grow between K/2 and K in any pattern without a listed finding. Held values of finished / cancelled / aborted-before-first-poll tasks are covered by the drop-counter ledger of the cmdlab checks (C04/C06/C07, signature held-value/not-released).",
     "level_note": "legacy-API tasks whose request is dropped are excluded (the legacy executor has no cancellation; the property's mechanisms are anchored in command/executor.rs); growth is judged between K/2 and K so warm-up effects cannot raise an alarm",
     "technique": "occupancy monitor over long repeated histories (hooked registries / slabs / sets) + live-allocation monitor (counting global allocator) + drop counters; LeakSanitizer lanes on the command-lab workloads",
     "rule": "pattern x K cycles (K = 2000 quick, 200000 thorough); non-trivial = pattern whose five occupancy quantities and live-allocation count stayed flat; distinct = (pattern, K)",
